@@ -26,6 +26,9 @@ import (
 
 func init() { lib.Register("C14", run) }
 
+var devTimings = os.Getenv("C14_DEBUG") != ""
+var devFDCheckAll = os.Getenv("C14_FDCHECK_ALL") != "" // developer aid: descriptor probe before every request
+
 const (
 	batchSize    = 100
 	opTimeout    = 25 * time.Second // the client's own deadline ("gave up"); expiry alone is never a verdict
@@ -98,12 +101,21 @@ type op struct {
 	gen      string // generator "family.variant"
 	desc     any    // journalled description (enough to re-create the request with the seed)
 	mustFail bool   // unambiguously malformed: success (2xx / OK) is a violation
-	class    string // optional coarser input class used in the malformed-accepted key (one root cause, one key)
+	class    string // optional coarser input class used in finding keys (one root cause, one key)
 	abortOp  bool   // client aborts a transfer of a large blob: run the descriptor probe right after
 	setup    bool   // harness housekeeping (not counted as a fuzz case)
 	noRetry  bool   // do not re-run to confirm an aborted connection
 	run      func(ctx context.Context, fx *fixture) result
 	after    func(fx *fixture, res result) // optional extra oracle for directed scenarios
+}
+
+// keyClass is the input class named in finding keys: the coarser class when
+// the generator gave one (one root cause, one key), else family.variant.
+func (o *op) keyClass() string {
+	if o.class != "" {
+		return o.class
+	}
+	return o.gen
 }
 
 type result struct {
@@ -157,6 +169,7 @@ type fixture struct {
 	leakedFDs    map[string]int // descriptors on cache files already reported for the current child
 	slack        int            // descriptor excess over the baseline explained by bounded pools (plateaus seen)
 	leakedConns  map[string]int // connection-table trouble already reported for the current child
+	baseConns    map[string]int // connection counts of the settled warm-up state
 }
 
 func runFixture(r *lib.Run, p plan, n int) {
@@ -445,7 +458,7 @@ func (fx *fixture) scanLog() (string, string) {
 }
 
 func (fx *fixture) exec(o *op) result {
-	if o.abortOp {
+	if o.abortOp || devFDCheckAll {
 		fx.cacheFDsBefore() // descriptors an earlier request left behind are not this request's
 	}
 	fx.journalWrite(o)
@@ -454,11 +467,13 @@ func (fx *fixture) exec(o *op) result {
 	t0 := time.Now()
 	res := o.run(ctx, fx)
 	cancel()
-	fx.r.CountN("ms.run."+groupOf(o.gen), time.Since(t0).Milliseconds())
-	if d := time.Since(t0); d > 700*time.Millisecond && os.Getenv("C14_DEBUG") != "" {
-		fmt.Fprintf(os.Stderr, "SLOW %s %s %s %v -> %s %s\n", fx.p.name, o.ep, o.gen, d, res.status, res.note)
+	if devTimings { // developer aid: where does the time go
+		fx.r.CountN("ms.run."+groupOf(o.gen), time.Since(t0).Milliseconds())
+		if d := time.Since(t0); d > 700*time.Millisecond {
+			fmt.Fprintf(os.Stderr, "SLOW %s %s %s %v -> %s %s\n", fx.p.name, o.ep, o.gen, d, res.status, res.note)
+		}
+		defer func(t time.Time) { fx.r.CountN("ms.judge."+groupOf(o.gen), time.Since(t).Milliseconds()) }(time.Now())
 	}
-	defer func(t time.Time) { fx.r.CountN("ms.judge."+groupOf(o.gen), time.Since(t).Milliseconds()) }(time.Now())
 	if o.setup {
 		fx.r.Count("setup." + o.gen)
 	} else {
@@ -494,10 +509,10 @@ func (fx *fixture) judge(o *op, res result) {
 	// (1)/(2) panic text in the child's log.
 	if marker != "" {
 		if marker == "http: panic serving" {
-			fx.violation("C14:http-panic:"+o.ep+":"+o.gen, "an HTTP handler panicked (recovered by net/http, logged by the server) while serving the journalled request",
+			fx.violation("C14:http-panic:"+o.ep+":"+o.keyClass(), "an HTTP handler panicked (recovered by net/http, logged by the server) while serving the journalled request",
 				map[string]any{"log": text, "status": res.status})
 		} else {
-			fx.reportDeath(o.ep, o.gen, fmt.Sprintf("the server process printed %q and died on the journalled request", strings.TrimSpace(marker)),
+			fx.reportDeath(o.ep, o.keyClass(), fmt.Sprintf("the server process printed %q and died on the journalled request", strings.TrimSpace(marker)),
 				map[string]any{"log": text, "status": res.status})
 			return
 		}
@@ -508,7 +523,7 @@ func (fx *fixture) judge(o *op, res result) {
 			fx.child.WaitExit(1500 * time.Millisecond)
 		}
 		if fx.child.Exited() {
-			fx.reportDeath(o.ep, o.gen, "the server process exited while serving the journalled request", map[string]any{"status": res.status})
+			fx.reportDeath(o.ep, o.keyClass(), "the server process exited while serving the journalled request", map[string]any{"status": res.status})
 			return
 		}
 		// Still able to answer at all?
@@ -524,27 +539,23 @@ func (fx *fixture) judge(o *op, res result) {
 			cancel()
 			fx.r.Count("abort-confirm." + res2.status)
 			if marker, text := fx.scanLog(); marker != "" {
-				fx.violation("C14:http-panic:"+o.ep+":"+o.gen, "an HTTP handler panicked (recovered by net/http) while serving the journalled request",
+				fx.violation("C14:http-panic:"+o.ep+":"+o.keyClass(), "an HTTP handler panicked (recovered by net/http) while serving the journalled request",
 					map[string]any{"log": text, "status": res2.status})
 			} else if res2.transport && !fx.child.Exited() {
 				if fx.livenessCheck("after repeated abort") {
-					fx.violation("C14:http-abort:"+o.ep+":"+o.gen, "the server reproducibly aborted the connection without any response to a complete request (the visible side of a recovered handler panic)",
+					fx.violation("C14:http-abort:"+o.ep+":"+o.keyClass(), "the server reproducibly aborted the connection without any response to a complete request (the visible side of a recovered handler panic)",
 						map[string]any{"first": res.status + " " + res.note, "second": res2.status + " " + res2.note})
 				}
 			}
 		}
 	}
 	if fx.child.Exited() {
-		fx.reportDeath(o.ep, o.gen, "the server process exited while serving the journalled request", map[string]any{"status": res.status})
+		fx.reportDeath(o.ep, o.keyClass(), "the server process exited while serving the journalled request", map[string]any{"status": res.status})
 		return
 	}
 	// (3) malformed request answered with success.
 	if o.mustFail && res.success {
-		cls := o.class
-		if cls == "" {
-			cls = o.gen
-		}
-		fx.violation("C14:malformed-accepted:"+o.ep+":"+cls, "an unambiguously malformed request was answered with success ("+res.status+")",
+		fx.violation("C14:malformed-accepted:"+o.ep+":"+o.keyClass(), "an unambiguously malformed request was answered with success ("+res.status+")",
 			map[string]any{"status": res.status, "note": res.note, "generator": o.gen, "request": o.desc})
 	}
 	if o.after != nil && !fx.dead && !fx.child.Exited() {
@@ -568,7 +579,7 @@ func (fx *fixture) livenessCheck(when string) bool {
 	o := fx.lastOp
 	ep, gen := "none", "none"
 	if o != nil {
-		ep, gen = o.ep, o.gen
+		ep, gen = o.ep, o.keyClass()
 	}
 	if fx.deathSeen {
 		return false
